@@ -29,7 +29,7 @@ CHECKS = {
             "TLC: round-trip law on all 3192 column-permutation x separator x coordinate-system x time-format x near-no-data-datum configurations, "
             "formats restored on all histories of 4 (thorough 5) public calls, network round trip for header 0/1 (four refuted "
             "variants as self-tests). All 3192 configurations (two stress-value tracks each, WKT round trip), all histories "
-            "(two CSV files, one GPX file, format changes in between) and all 17 820 small networks are written and read "
+            "(two CSV files, one GPX file, format changes in between) and all 23 760 small networks (comma, semicolon, tab and blank separators) are written and read "
             "back for real: count, order, coordinates at the written precision, timestamps to the second, global formats after "
             "each call, nodes / edges / end nodes / orientations / geometries.",
             "TLC 1.8; permutation ids and matching time format are preconditions; formatting fidelity on a finite lattice "
